@@ -640,8 +640,12 @@ func c16GenEntries(t *rapid.T, style int, top string, max int) []c16Entry {
 
 // c16WithDirs inserts a directory member for every not yet announced ancestor of the members with an ordinary
 // name, the way real plugin tarballs are laid out (TarGzExtractor.Extract does not create parents on its own).
-func c16WithDirs(es []c16Entry) []c16Entry {
+func c16WithDirs(es []c16Entry, plants []c16Plant) []c16Entry {
 	seen := map[string]bool{}
+	for _, p := range plants {
+		// the author of a hostile archive knows the layout: no directory member where something is already planted
+		seen[p.Path] = true
+	}
 	var out []c16Entry
 	for _, e := range es {
 		n := string(e.Name)
@@ -736,7 +740,7 @@ func c16GenA(t *rapid.T) *c16ACase {
 		c.Truncate = rapid.IntRange(1, 1500).Draw(t, "truncate")
 	}
 	if (c.Target == "extract" || c.Target == "plugin-install") && rapid.IntRange(0, 5).Draw(t, "withDirs") > 0 {
-		c.Entries = c16WithDirs(c.Entries)
+		c.Entries = c16WithDirs(c.Entries, c.Plants)
 	}
 	if c.Target == "plugin-install" {
 		c.URLPath = rapid.SampledFrom([]string{"/plugins/myplugin-1.0.0.tgz", "/plugins/myplugin-1.0.0.tgz", "/plugins/myplugin.tar.gz", "/plugins/..tgz", "/plugins/...tgz", "/plugins/a%2f..%2f..tar.gz", "/.tgz"}).Draw(t, "pluginURL")
